@@ -4,7 +4,8 @@
    std type definitions are constants read from specification/std_extensions at run time. *)
 EXTENDS HugrTerms
 
-CONSTANTS IntBSpec, FloatBSpec, StringBSpec, ArrBSpec, LstBSpec, SArrBSpec
+CONSTANTS IntBSpec, FloatBSpec, StringBSpec, ArrBSpec, LstBSpec, SArrBSpec,
+          PreludeDesc     \* descriptions of the prelude op definitions MakeTuple / UnpackTuple / Noop (record)
 
 IntT(w)      == ExtT("arithmetic.int.types", "int", <<NatArg(w)>>, IntBSpec)
 FloatT       == ExtT("arithmetic.float.types", "float64", <<>>, FloatBSpec)
@@ -97,13 +98,22 @@ LeftOp(l, r)      == [op |-> "Left", left |-> l, right |-> r]
 RightOp(l, r)     == [op |-> "Right", left |-> l, right |-> r]
 ContinueOp(l, r)  == [op |-> "Continue", left |-> l, right |-> r]
 BreakOp(l, r)     == [op |-> "Break", left |-> l, right |-> r]
-IsSugarOp(o) == o.op \in {"MakeTuple", "UnpackTuple", "Noop", "Some", "Left", "Right", "Continue", "Break"}
+(* a definition-backed extension operation: `defsig` is the definition's type scheme ([params, body]),
+   `cached` the concrete signature stored on the operation (none = [none |-> TRUE], allowed only for a
+   monomorphic definition), `ddesc` the definition's description *)
+ExtOpOp(e, n, defsig, cached, args, ddesc) ==
+  [op |-> "ExtOp", extension |-> e, name |-> n, defsig |-> defsig, cached |-> cached, args |-> args, ddesc |-> ddesc]
+NoSig == [none |-> TRUE]
+IsSugarOp(o) == o.op \in {"MakeTuple", "UnpackTuple", "Noop", "Some", "Left", "Right", "Continue", "Break", "ExtOp"}
 TyArgs(ts) == [i \in 1..Len(ts) |-> TyArg(Desugar(ts[i]))]
-ExtensionOp(e, n, sig, args) == [op |-> "Extension", extension |-> e, name |-> n, signature |-> sig, description |-> "", args |-> args]
+ExtensionOp(e, n, sig, args) == [op |-> "Extension", extension |-> e, name |-> n, signature |-> sig, description |-> PreludeDesc[n], args |-> args]
 EncOp(o) ==
   CASE o.op = "MakeTuple" -> ExtensionOp("prelude", "MakeTuple", Desugar(FnTR(o.types, <<TupleT(o.types)>>, <<"prelude">>)), <<SeqArg(TyArgs(o.types))>>)
     [] o.op = "UnpackTuple" -> ExtensionOp("prelude", "UnpackTuple", Desugar(FnTR(<<TupleT(o.types)>>, o.types, <<"prelude">>)), <<SeqArg(TyArgs(o.types))>>)
     [] o.op = "Noop" -> ExtensionOp("prelude", "Noop", Desugar(FnTR(<<o.ty>>, <<o.ty>>, <<"prelude">>)), <<TyArg(Desugar(o.ty))>>)
+    [] o.op = "ExtOp" -> [op |-> "Extension", extension |-> o.extension, name |-> o.name,
+                          signature |-> Desugar(IF Has(o.cached, "none") THEN o.defsig.body ELSE o.cached),
+                          description |-> o.ddesc, args |-> [i \in 1..Len(o.args) |-> DesugarArg(o.args[i])]]
     [] o.op = "Some" -> [op |-> "Tag", tag |-> 1, variants |-> <<<<>>, DesugarRow(o.tys)>>]
     [] o.op \in {"Left", "Continue"} -> [op |-> "Tag", tag |-> 0, variants |-> <<DesugarRow(o.left), DesugarRow(o.right)>>]
     [] o.op \in {"Right", "Break"} -> [op |-> "Tag", tag |-> 1, variants |-> <<DesugarRow(o.left), DesugarRow(o.right)>>]
